@@ -24,7 +24,7 @@ func init() {
 	serve("C15", "L1", "L8", "L9", "G3", "G13", "L7", "G22", "G23", "R4", "G31")
 	serve("C16", "G1", "G1b", "G9", "G10", "G10b", "R4", "G25", "G26", "G3", "G13", "G22", "G23", "G35")
 	serve("C17", "P1", "L2", "L3", "G11", "G20", "G24", "L12", "G3", "G13", "G22", "G23")
-	serve("C18", "L1", "L2", "L6", "L8", "P2", "R4", "G10", "G14", "G17", "L10", "G25", "G29", "G30", "G3", "G13", "G22", "G23")
+	serve("C18", "L1", "L2", "L6", "L8", "P2", "R4", "G10", "G14", "G17", "L10", "G25", "G29", "G30", "G3", "G13", "G22", "G23", "G37")
 	serve("C19", "P3", "P6", "P9", "P10", "G21", "L1", "L6", "L8", "P12", "P13", "G3", "G13", "G22", "G23", "G36", "P14", "P15")
 	serve("C20", "G2", "R4", "L2", "L3", "L10", "G32", "G3", "G13", "G22", "G23", "L12")
 }
